@@ -822,8 +822,9 @@ func Equal(left Value, right Value) bool {
 // compared (as reflect.DeepEqual does): data that refers back to itself ends
 // there, and a sub-list shared by many lists is compared once.
 type comparison struct {
-	left, right uintptr
-	length      int
+	left, right         uintptr
+	leftType, rightType reflect.Type
+	length              int
 }
 
 func equalValues(left, right Value, seen map[comparison]bool) bool {
@@ -910,8 +911,10 @@ func equalContainers(left, right Value, seen map[comparison]bool) bool {
 	// (An array has an identity when it is reached through a pointer.)
 	if lp, lok := identity(left, lv); lok {
 		if rp, rok := identity(right, rv); rok {
-			c := comparison{lp, rp, lv.Len()}
-			if c.left == c.right || seen[c] {
+			// (The address alone does not identify a list: a table of rows
+			// begins where its first row begins.)
+			c := comparison{lp, rp, lv.Type(), rv.Type(), lv.Len()}
+			if (c.left == c.right && c.leftType == c.rightType) || seen[c] {
 				return true // the same list or map, or a pair already under comparison
 			}
 			seen[c] = true
